@@ -117,6 +117,28 @@ func (f *trigFam) play(l *Line, out *rec) error {
 	}
 	w := &zerolog.TriggerLevelWriter{Writer: dw, ConditionalLevel: zerolog.Level(c.Cond), TriggerLevel: zerolog.Level(c.Trig)}
 	out.emit(map[string]interface{}{"a": "Reset", "conf": c.Name, "id": l.ID, "plain": plain})
+	if h%8 == 5 {
+		// "all levels other than 10": one line held at every level of the int8 range (but the separator's), then an explicit
+		// Trigger - on a writer of its own, before the history proper
+		sd := &trigDest{}
+		sw := &zerolog.TriggerLevelWriter{Writer: sd, ConditionalLevel: zerolog.Level(127), TriggerLevel: zerolog.Level(127)}
+		levels := []int{}
+		for lv := -128; lv <= 126; lv++ {
+			if lv == 10 {
+				continue
+			}
+			sw.WriteLevel(zerolog.Level(lv), append([]byte(nil), trigLines[2]...))
+			levels = append(levels, lv)
+		}
+		early := len(sd.got)
+		sw.Trigger()
+		got := sd.got
+		if got == nil {
+			got = [][2]int{}
+		}
+		out.emit(map[string]interface{}{"a": "LSweep", "levels": levels, "early": early, "s": 2, "out": got})
+		sw.Close()
+	}
 	// a COMPANION writer with the same thresholds and its own destination lives at the same time (every second history):
 	// from some point of the main history on it holds one line after each main operation, and after the main writer was
 	// closed it triggers. Writers share nothing but the buffer pool: the companion's history must satisfy the same
